@@ -2,13 +2,18 @@
 from common import *
 import itertools
 
-RULE = ("exhaustive: every word over {a,b} to length L2, {a,b,c} to length L3, ACGT to length L4 (and the empty string); "
+RULE = ("exhaustive: every word over {a,b} to length L2, {a,b,c} to length L3, ACGT to length L4 (and the empty string), every byte string over "
+        "{00,09,41,5c,61,7f,80,c3,ff} to length 4 (thorough: over the first seven to length 6); random / periodic / mixed-case byte strings (hex-encoded, "
+        "all 256 values) to 3000 bytes and a few up to MAXLEN; "
         "then random, periodic (powers), near-periodic (a power with one letter changed) and Fibonacci words up to MAXLEN; "
         "every rotation of a sample of words is also submitted (canonicalisation clause). non-trivial = length >= 2 and not a "
         "single repeated letter; distinct by case text")
 EXHAUSTIVE = {"quick": False, "thorough": True}
-TRUSTED_BASE = ["Spec/Rotation.lean: arg-min over all rotations (quadratic) judges inputs up to 1500 letters; the independent "
-                "two-pointer algorithm judges longer ones and is itself compared with the arg-min spec on every short input",
+TRUSTED_BASE = ["Spec/Rotation.lean: arg-min over all rotations (quadratic) judges inputs up to 1500 letters; longer inputs are judged "
+                "against the model's value, which Props/C12Booth.booth_least proves equal to the arg-min for every string (so there "
+                "the verdict rests on the Lean compiler executing the proved definition faithfully). The independent two-pointer "
+                "algorithm is a self-test only: it is compared with the spec value on EVERY input and a disagreement is a broken "
+                "obligation of the check (class selftest-fail, reported through corr), never a property verdict",
                 "byte strings are submitted hex-encoded (rotatehex) and decoded to code points of the same value, so the model's code-point order is Go's byte order; text cases (rotate) are ASCII"]
 ASSUMPTIONS = ["a byte is modelled as the code point of the same value"]
 PARTIAL = []
@@ -35,8 +40,11 @@ def cases(seed, tier):
     for n in range(1, Lb + 1):
         for t in itertools.product(byte_alpha[:7] if n > 4 else byte_alpha, repeat=n):
             yield ["rotatehex", hx(t)]
-    for _ in range(300 if tier == "quick" else 5000):
-        k = loglen(r, 2, 3000)
+    maxlen = 20000 if tier == "quick" else 1000000
+    nbytes = 300 if tier == "quick" else 5000
+    nlong = 8 if tier == "quick" else 60      # byte strings that follow maxlen (all 256 values, high bytes, mixed case)
+    for it in range(nbytes + nlong):
+        k = loglen(r, 2, 3000) if it < nbytes else loglen(r, 3000, maxlen)
         kind = r.random()
         if kind < 0.4:
             bs = [r.randrange(256) for _ in range(k)]
@@ -50,8 +58,13 @@ def cases(seed, tier):
     for w in ["Ba", "aA", "Aa", "ACGTacgt", "acgtACGT", "aabaaAaabaab"]:
         for kk in range(len(w)):
             yield ["rotate", w[kk:] + w[:kk]]
-    maxlen = 20000 if tier == "quick" else 1000000
     n = 200 if tier == "quick" else 1500
+    # index width: doubled length above 2^16 (and 2^17) also in the quick tier
+    for L in [32769, 40000, 70000]:
+        w = fib(L); k = r.randrange(L)
+        yield ["rotate", w[k:] + w[:k]]
+        yield ["rotate", randword(r, "ACGT", L)]
+    yield ["rotatehex", hx([r.choice([0x41, 0x61, 0x80, 0xff]) for _ in range(33000)])]
     for i in range(n):
         kind = r.choice(["rand", "power", "near", "fib", "rots"])
         if kind == "rand":
@@ -85,7 +98,7 @@ LEVEL_TEXT = ("Proved in Lean for strings of every length (Props/C12): the arg-m
               "no greater than any rotation, and rotateSequence (rotl k s) = rotateSequence s. The model is tied to "
               "seqhash.RotateSequence by correspondence (exhaustive over {a,b}^<=20, {a,b,c}^<=13, ACGT^<=11 in the thorough tier, "
               "periodic/near-periodic/Fibonacci words to 10^6) and every real output is also judged against the arg-min spec.")
-LEVEL_NOTE = "Trusted: Lean kernel; harness + polymodel; ASCII bytes; for inputs > 1500 letters the judge is the two-pointer algorithm (tested against the spec, not proved)."
+LEVEL_NOTE = "Trusted: Lean kernel; harness + polymodel; a byte is modelled as the code point of the same value; for inputs > 1500 letters the expected value is computed by the compiled model (proved equal to the arg-min; the Lean compiler is trusted there), cross-checked by the unproved two-pointer algorithm as a self-test."
 
 HARNESS_BIN = "run-seq"
 EXTRACT_BINS = ["extract-seq"]
